@@ -41,15 +41,33 @@ def descriptor(module, root_seed, index, tier):
 _SLIM_DROP = ("trace", "traceback", "detail")
 
 
+# Shared abort flag (inherited through fork): set when a run hangs or when enough
+# violations have been seen; workers then skip their remaining indices so that a
+# badly broken tree cannot turn a batch into (runs x watchdog) seconds.
+ABORT = mp.get_context("fork").Value("i", 0)
+MAX_VIOLATIONS = 200
+MEM_LIMIT = int(os.environ.get("VERIF_MEM_LIMIT_MB", "3072")) << 20
+
+
 def _work(prop_id, root_seed, tier, indices, n_samples):
     faulthandler.enable()
+    try:
+        import resource
+
+        resource.setrlimit(resource.RLIMIT_AS, (MEM_LIMIT, MEM_LIMIT))
+    except (ImportError, ValueError, OSError):
+        pass
     module = load(prop_id)
     res = []
     for i in indices:
+        if ABORT.value:
+            break
         R = descriptor(module, root_seed, i, tier)
         out = run_one(module, R, watchdog=getattr(module, "WATCHDOG", 60.0))
         if out["status"] != "ok" or i < n_samples:
             out["R"] = R
+        if out["status"] == "violation" and out.get("oracle") in ("hang", "crash:MemoryError"):
+            ABORT.value = 1
         res.append(out)
     return res
 
@@ -62,6 +80,7 @@ def run_batch(module, root_seed, tier, n_runs=None, budget_s=None, chunk=None):
     """Run indices 0..n-1 (quick) or as many as fit in budget_s (thorough)."""
     t0 = _realtime.time()
     outs = []
+    ABORT.value = 0
     chunk = chunk or getattr(module, "CHUNK", 25)
     n_samples = 3
     with _pool() as pool:
@@ -73,6 +92,8 @@ def run_batch(module, root_seed, tier, n_runs=None, budget_s=None, chunk=None):
             ]
             for f in futs:
                 outs.extend(f.result())
+                if sum(1 for o in outs if o["status"] != "ok") > MAX_VIOLATIONS:
+                    ABORT.value = 1
         else:
             nxt = 0
             pending = set()
@@ -91,6 +112,9 @@ def run_batch(module, root_seed, tier, n_runs=None, budget_s=None, chunk=None):
                 done, pending = cf.wait(pending, return_when=cf.FIRST_COMPLETED)
                 for f in done:
                     outs.extend(f.result())
+                if ABORT.value or sum(1 for o in outs if o["status"] != "ok") > MAX_VIOLATIONS:
+                    ABORT.value = 1
+                    cap = nxt
     outs.sort(key=lambda o: o["index"])
     return outs, _realtime.time() - t0
 
@@ -108,6 +132,8 @@ def _fails(module, R, oracle):
 def shrink(module, R, oracle, budget=250):
     """Delta debugging over R['ops'] + module.simplify candidates."""
     spent = [0]
+    if oracle in ("hang", "crash:MemoryError"):
+        budget = 12  # every candidate costs a full watchdog period
 
     def fails(cand):
         spent[0] += 1
